@@ -149,6 +149,37 @@ def run(res, tier, seed):
     all_ops = [l for _, ls in cases for l in ls]
     ppairs = [(op, ob) for op, ob in zip(all_ops, model_obs) if op.startswith("parse ")]
     xcheck_lbl(res, rng.sample(ppairs, min(len(ppairs), 150 if tier == "quick" else 1500)))
+    # the considered list in the closed loop: orderedMatchingClusterCIDRs on populations of ClusterCIDRs over all six operators
+    # and selector-less ones -- a ClusterCIDR is in the list for a node exactly when its selector holds of the node's labels, or
+    # it has none (model vs implementation, and the two clauses as a monitor on the implementation's answers)
+    import c07
+    import syscorr
+    import sysmon
+    psels = ["-", "-", "zone:In:a", "zone:In:a+b", "tier:Exists:", "zone:NotIn:b", "tier:DoesNotExist:", "rack:Gt:5", "rack:Lt:10", "in:In:in", "zone:In:a;rack:Gt:5",
+             "notin:NotIn:notin+x", "zone:In:EMPTY+a", "zone:NotIn:a;tier:Exists:"]
+    plabels = ["zone=a", "zone=a,tier=x", "zone=b,rack=7", "tier=x,rack=12", "-", "in=in,rack=3", "zone=,notin=x", "zone=a,rack=007"]
+    npop = 60 if tier == "quick" else 600
+    pops = [c07.gen_population(rng, i, psels, plabels) for i in range(npop)]
+    presults, pst = syscorr.run_both(pops, "C17pop")
+    porc = c07.load_orc(pst["casefile"] + ".orc")
+    pmm, pfails = [], []
+    for cid, ls, iobs, mobs in presults:
+        mm = syscorr.first_mismatch(ls, iobs, mobs, ["fx", "res"])
+        if mm:
+            pmm.append((cid, ls, mm))
+        tr = sysmon.Trace(cid, ls, iobs)
+        for f in c07.order_monitor(tr, porc):
+            if f["cls"] in ("eligible-missing", "unselected-considered"):
+                pfails.append((cid, ls, f))
+    res.obligation("correspondence: the considered list (orderedMatchingClusterCIDRs) = model on %d populations of ClusterCIDRs with and without selectors" % npop, not pmm)
+    res.obligation("monitor: a ClusterCIDR is considered for a node exactly when its selector holds of the node's labels, or it has none (%d populations)" % npop, not pfails)
+    for cid, ls, f in pfails[:2]:
+        res.violation({"property": "C17", "kind": "impl-violation", "theorem_or_correspondence": "monitor on the implementation's trace",
+                       "monitor_clause": f["clause"], "detail": f["detail"], "case": ["case " + cid] + ls[:f["step"] + 1]})
+    if pmm and not pfails:
+        cid, ls, mm = pmm[0]
+        res.violation({"property": "C17", "kind": "correspondence-break", "theorem_or_correspondence": "model vs real orderedMatchingClusterCIDRs (considered list)",
+                       "case": ["case " + cid] + ls[:mm["step"] + 1], "first_difference": str(mm)[:600]}, nofail=True)
     # same key => same meaning (monitor on the implementation's answers)
     flat_ops = [l for _, ls in cases for l in ls]
     flat_obs = [l for b in impl for l in b[1:]]
@@ -185,7 +216,7 @@ def run(res, tier, seed):
                          "texts_parsed": sum(1 for l in flat_obs if l.startswith("parse ok")), "texts_rejected": sum(1 for l in flat_obs if l == "parse fail"),
                          "requirements_parsed_by_operator": {o: sum(l.count(":" + o + ":") for l in flat_obs if l.startswith("parse ok")) for o in
                                                              ("In", "NotIn", "Eq", "DEq", "Ne", "Exists", "DoesNotExist", "Gt", "Lt")},
-                         "arbitrary_keys_matched": sum(1 for l in flat_obs if l.startswith("mkey") and l != "mkey err"), "keys_shared_by_several_selectors": sum(1 for v in by_key.values() if len(v) > 1)},
+                         "arbitrary_keys_matched": sum(1 for l in flat_obs if l.startswith("mkey") and l != "mkey err"), "populations": npop, "keys_shared_by_several_selectors": sum(1 for v in by_key.values() if len(v) > 1)},
         "timing": st, "traces_validated_against_impl": len(lines),
     })
     for m in mism[:5]:
